@@ -10,7 +10,7 @@
    [atlas_wf] allows struct maps, transforms (kinds 1..9), keyed unions and map morphisms; [domb] is the
    domain described in Properties_C01.v. *)
 From Coq Require Import List ZArith.
-Require Import Tok GoVal Marshal Unmarshal ObjProof RoundTripProof.
+Require Import Tok GoVal Marshal Unmarshal ObjProof BoundsProof RoundTripProof EndToEndProof.
 Import ListNotations.
 Open Scope Z_scope.
 
@@ -33,6 +33,19 @@ Proof.
   destruct (token_roundtrip_remarshal E A GAny v f ts H1 H2 H3 H4 H5 H6) as (f' & v' & Hu & _ & Hm).
   exists f', v'. split; assumption.
 Qed.
+
+(* the byte level (EndToEndProof.v): the document re-marshalled from the value read back is byte-identical
+   (stated for explicit marshaller fuel, and for marshal_top whenever it does not run out of fuel) *)
+Theorem C12_cbor_remarshal_byte_exact : forall E A t v bs,
+  atlas_wf E A = true -> cranked A 3 = true -> omit_ok A = true ->
+  wt E A t v -> domb E A t v = true -> rmv v = true -> cbor_ok E A t v = true ->
+  cbor_marshal E A t v = Some bs ->
+  exists n v', cbor_unmarshal E A t bs = Some (UTDone n v') /\ req E A t v v' /\
+    (forall f, (200 + 12 * vsize 100 v <= f)%nat -> cbor_marshal_with f A t v' = Some bs) /\
+    (marshal_top E A t v' <> MFuel -> cbor_marshal E A t v' = Some bs) /\
+    ((vsize 100 v <= vsize 100 v')%nat -> cbor_marshal E A t v' = Some bs).
+Proof. exact cbor_remarshal. Qed.
+Print Assumptions C12_cbor_remarshal_byte_exact.
 
 (* why the conditions: uint8(5) in an untyped slot marshals as Uint 5, reads back as int 5, re-marshals as Int 5 *)
 Example C12_first_round_may_retype_numbers : rmv (VAny (Some (GNum U8, VNum 5))) = false.
